@@ -199,6 +199,31 @@ class Evaluator:
         self.funcs = dict(funcs or {})  # dotted callee text -> python callable over domain values
         self.consts = dict(consts or {})  # module-level numeric constants by name
 
+    def _home_of(self, node):
+        """The Lifted context of the function `node` belongs to (sibling helpers of its module, sibling methods of its class),
+        derived from the loader's annotations when the fragment was not started through Lifted."""
+        home = getattr(self, "home", None)
+        if home is not None:
+            return home
+        fn = getattr(node, "_func", None)
+        if fn is None:
+            return None
+        while getattr(fn, "_func", None) is not None:   # a nested def / lambda: go out to the module- or class-level function
+            fn = fn._func
+        cache = self.__dict__.setdefault("_homes", {})
+        if id(fn) not in cache:
+            try:
+                h = Lifted(fn, self.funcs, self.consts, dict(self.bound), self.hook)
+            except (Unfoldable, Raised):
+                cache[id(fn)] = None
+                return None
+            h.funcs = self.funcs
+            if h.class_methods and h.pos:
+                me = h.pos[0]
+                h.self_obj = self.locals.get(me, self.bound.get(me))
+            cache[id(fn)] = h
+        return cache[id(fn)]
+
     def _emit(self, value):
         """A `yield` of the fragment: collected, or handed to the consumer at once when the fragment runs as a lazy generator."""
         if getattr(self, "on_yield", None) is not None:
@@ -241,6 +266,11 @@ class Evaluator:
             return {"True": True, "False": False, "None": None}[n.id]
         if n.id in self.funcs:
             return self.funcs[n.id]  # a supplied / lifted callable passed around as a value (map(f, xs), key=f)
+        home = self._home_of(n)
+        if home is not None and n.id in home.module_funcs:
+            return home.helper(n.id)  # a helper of the same module passed around as a value (functools.partial(helper, ...))
+        if home is not None and n.id in home.module_globals:
+            return home.module_globals[n.id]  # a module-level table
         if n.id in self.defs and self._depth < 6:
             self._depth += 1
             try:
@@ -491,6 +521,10 @@ class Evaluator:
                 return self.funcs[key](*args, **kwargs)
             except (TypeError, ValueError, KeyError, IndexError, AttributeError, ZeroDivisionError) as e:
                 raise Raised(type(e).__name__)  # the fragment misuses a supplied pure function: the program would raise too
+        if key in ("functools.partial", "partial") and args and callable(args[0]):
+            import functools as _ft
+
+            return _ft.partial(*args, **kwargs)
         if key in _STD_CONTAINERS:
             return self._builtin(_STD_CONTAINERS[key], args, kwargs)
         if isinstance(n.func, ast.Name):
@@ -505,10 +539,19 @@ class Evaluator:
                 return self._builtin(_BUILTINS[n.func.id], args, kwargs)
             if n.func.id in _BUILTIN_EXC or n.func.id.endswith("Exception") or n.func.id.endswith("Error"):
                 return ("exception", n.func.id, args)
-            home = getattr(self, "home", None)
+            home = self._home_of(n)
             if home is not None and n.func.id in home.module_funcs:
                 return home.helper(n.func.id)(*args, **kwargs)   # a helper of the same module (e.g. extracted by a refactoring)
             raise Unfoldable(f"call of {key}")
+        if isinstance(n.func, ast.Attribute) and isinstance(n.func.value, ast.Name) and n.func.value.id not in self.locals:
+            home = self._home_of(n)
+            if home is not None and n.func.value.id in home.module_classes:
+                cf = home.class_function(n.func.value.id, n.func.attr)
+                if cf is not None:
+                    h, kind = cf
+                    if kind == "class":
+                        return h(n.func.value.id, *args, **kwargs)
+                    return h(*args, **kwargs)   # K.static(...) or K.method(obj, ...)
         if isinstance(n.func, ast.Attribute):
             recv = self.ev(n.func.value)
             a = n.func.attr
@@ -529,7 +572,7 @@ class Evaluator:
                 return self._builtin(getattr(recv, a), args, kwargs)
             if isinstance(recv, (dict, list, tuple, set)) and a in _CONTAINER_METHODS:
                 return self._builtin(getattr(recv, a), args, kwargs)
-            home = getattr(self, "home", None)
+            home = self._home_of(n)
             if home is not None and home.self_obj is not None and recv is home.self_obj and a in home.class_methods:
                 return home.method(a)(recv, *args, **kwargs)      # another method of the object the folded method belongs to
             raise Unfoldable(f"method call {key} on {type(recv).__name__}")
@@ -838,8 +881,25 @@ class Lifted:
         # where the function lives: sibling helpers of its module and sibling methods of its class can be lifted on demand
         self.module_funcs, self.class_methods, self.self_obj = {}, {}, None
         mod = getattr(fn, "_mod", None)
+        self.module_classes = {}
+        self.module_globals = {}
         if mod is not None:
+            # module-level container literals are state that lives as long as the parsed module (= one run of a check = one process)
+            if not hasattr(mod, "_fold_globals"):
+                mod._fold_globals = {}
+                for node in mod.tree.body:
+                    tgt = node.targets[0] if isinstance(node, ast.Assign) and len(node.targets) == 1 else getattr(node, "target", None)
+                    val = getattr(node, "value", None)
+                    if isinstance(tgt, ast.Name) and val is not None:
+                        if isinstance(val, ast.Dict) and not val.keys:
+                            mod._fold_globals[tgt.id] = {}
+                        elif isinstance(val, ast.List) and not val.elts:
+                            mod._fold_globals[tgt.id] = []
+                        elif isinstance(val, ast.Call) and not val.args and not val.keywords and ast.unparse(val.func) in ("dict", "list", "set"):
+                            mod._fold_globals[tgt.id] = {"dict": dict, "list": list, "set": set}[ast.unparse(val.func)]()
+            self.module_globals = mod._fold_globals
             self.module_funcs = {n.name: n for n in mod.tree.body if isinstance(n, ast.FunctionDef) and n is not fn}
+            self.module_classes = {n.name: n for n in mod.tree.body if isinstance(n, ast.ClassDef)}
         par = getattr(fn, "_parent", None)
         if isinstance(par, ast.ClassDef):
             self.class_methods = {n.name: n for n in par.body if isinstance(n, ast.FunctionDef) and n is not fn}
@@ -853,6 +913,20 @@ class Lifted:
             h.funcs, h.env = self.funcs, self.env
             self._lifted_helpers[name] = h
         return self._lifted_helpers[name]
+
+    def class_function(self, cls_name, name):
+        """`K.name` for a class K of the same module: the lifted function and whether it is a static method."""
+        key = f"class:{cls_name}.{name}"
+        if key not in self._lifted_helpers:
+            node = next((n for n in self.module_classes[cls_name].body if isinstance(n, ast.FunctionDef) and n.name == name), None)
+            if node is None:
+                return None
+            h = Lifted(node, self.funcs, self.consts, self.env, self.hook)
+            h.funcs, h.env = self.funcs, self.env
+            kind = "static" if any(ast.unparse(d) == "staticmethod" for d in node.decorator_list) else \
+                "class" if any(ast.unparse(d) == "classmethod" for d in node.decorator_list) else "plain"
+            self._lifted_helpers[key] = (h, kind)
+        return self._lifted_helpers[key]
 
     def method(self, name):
         key = "method:" + name
